@@ -189,11 +189,15 @@ impl ClockShared {
 
 	#[must_use]
 	pub fn ticks(&self) -> u64 {
+		#[cfg(kira_verif)]
+		crate::verif_hooks::yield_point("clock.shared.ticks.load");
 		self.ticks.load(Ordering::SeqCst)
 	}
 
 	#[must_use]
 	pub fn fractional_position(&self) -> f64 {
+		#[cfg(kira_verif)]
+		crate::verif_hooks::yield_point("clock.shared.fraction.load");
 		f64::from_bits(self.fractional_position.load(Ordering::SeqCst))
 	}
 
@@ -302,6 +306,8 @@ impl Clock {
 			} => (*ticks, *fractional_position),
 		};
 		self.shared.ticks.store(ticks, Ordering::SeqCst);
+		#[cfg(kira_verif)]
+		crate::verif_hooks::yield_point("clock.update_shared.between");
 		self.shared
 			.fractional_position
 			.store(fractional_position.to_bits(), Ordering::SeqCst);
